@@ -105,9 +105,10 @@ class Stamper:
         raws = [bytes.fromhex(e[1:]) for e in w.since(m) if e.startswith("W")]
         w.cancel(self.n)
         w.tasks.pop(self.n, None)
-        if len(raws) != 1:
-            raise RuntimeError("the transmitter wrote %d frames for one send" % len(raws))
-        return raws[0]
+        # one `send` = one write of one frame; several writes (a frame put on the transport in pieces) are joined - the
+        # caller reports the pieces
+        self.pieces = len(raws)
+        return b"".join(raws)
 
     def shutdown(self):
         for w in self.worlds.values():
@@ -137,6 +138,11 @@ def _frames(ctx):
         hdr = f.hl_packet.header
         data = bytes(f.hl_packet.data)
         raw = stamper.wire(seq, f)
+        if stamper.pieces != 1:
+            ctx.counterexample("frame-written-in-pieces", dict(seq=seq, flags=base_flags, body_len=len(data) + (4 if hdr is not None else 0)),
+                               "one write per frame", "%d writes" % stamper.pieces,
+                               "the bytes of one frame reach the transport in several writes, with the event loop running in between "
+                               "(an acknowledgement for incoming traffic can land inside the frame)")
         rest = bytes(r.getrandbits(8) for _ in range(r.choice([0, 0, 1, 9])))
         cases.append((seq, base_flags, hdr, data, raw, rest, f))
         lines.append("frame %d %d %s %s" % (seq, base_flags, "-" if hdr is None else int(hdr), hx(data)))
